@@ -30,7 +30,8 @@ RULE = (
     "of the smallest/largest plane spacing, near-tie radii d_k(1+-1e-8), exact ties). Family 'nolattice': dim 1-3 without lattice "
     "vectors (None or empty array), every finite-radius query mirrored on a plain Grid; r=inf recorded only. Family 'history': lattice "
     "grids whose points/weights are reassigned through the public setters between queries. Family 'select': __getitem__ on lattice "
-    "grids followed by queries on the selection. Brute-force cost is bounded by shrinking the radius until <= 20000 translations."
+    "grids followed by queries on the selection. Weight vectors of every family by class (uniform, positive, negative, some/mostly/all exact "
+    "zeros of both signs, denormal/1e-300, 1e300, int64, int32): membership must depend on geometry only, weights are exact copies. Brute-force cost is bounded by shrinking the radius until <= 20000 translations."
 )
 ASSUMPTIONS = [
     "distance == radius is a don't-care inside a relative band of 1e-9 (plus 64 eps x coordinate magnitude)",
@@ -200,6 +201,8 @@ def check_periodic_localgrid(ctx, g, center, radius, lg, exc):
     extra = [k for k in got if k not in may]
     nm, ne = len(missing), len(extra)
     sig = ("missing-images" if nm else "") + ("+" if nm and ne else "") + ("extra-images" if ne else "")
+    if nm and w.shape == (n,) and all(w[k[0]] == 0 for k in missing):
+        sig += ":all-zero-weight"  # membership depends on the weights instead of geometry only
     det = None
     if nm or ne:
         det = {"N": n, "radius": radius, "center": c, "realvecs": rv, "n_expected": len(must), "n_got": len(pairs), "missing": nm, "extra": ne, "frac_intvls": np.asarray(g.frac_intvls)}
@@ -215,7 +218,8 @@ def check_periodic_localgrid(ctx, g, center, radius, lg, exc):
     if ctx.check("weights-match-parent", subj, lw.shape == (idx.size,), sig="shape" + tail):
         wscale = 1.0 + (float(np.abs(w).max()) if w.size else 0.0)
         dw = float(np.abs(lw - w[idx]).max()) / wscale if idx.size else 0.0
-        ctx.check("weights-match-parent", subj, dw, TOL_COPY, sig="values" + tail)
+        exact = bool(np.array_equal(lw, w[idx]))  # weights are copies: exact, also for denormal / integer weights
+        ctx.check("weights-match-parent", subj, 0.0 if exact else max(dw, 2 * TOL_COPY), TOL_COPY, sig="values" + tail, detail={"max_rel_diff": dw, "dtype": str(lw.dtype), "parent_dtype": str(w.dtype)})
     ctx.check("size-consistent", subj, int(lg.size) == int(idx.size), sig="size" + tail)
     try:
         lc = np.asarray(lg.center)
@@ -256,7 +260,7 @@ def setup(ctx):
 CELL_KINDS = ["cubic", "ortho", "skew", "skew20", "lefthanded", "negative", "aspect50", "general"]
 PLACEMENTS = ["inside", "outside", "mixed", "single"]
 DIMCODES = ["1", "1c", "2", "3"]
-WITNESSES = ["empty-sphere", "negative-1d", "one-d-no-lattice", "skewed-2d", "big-sphere-3d", "stale-intervals-after-points-setter"]
+WITNESSES = ["empty-sphere", "negative-1d", "one-d-no-lattice", "skewed-2d", "big-sphere-3d", "stale-intervals-after-points-setter", "zero-weights"]
 
 
 def cases(tier, seed):
@@ -378,7 +382,7 @@ def build_lattice_grid(ctx, p, n=None, wrap=None, place=None, cell=None):
     n = len(pts)
     if rng.random() < 0.3:
         pts = pts + rng.normal(size=dim) * np.abs(full).max() * 3  # whole point set far from the origin cell
-    w = rng.uniform(-0.5, 2.0, n)
+    w = c10mod.rand_weights(ctx, rng, n)
     wrap = bool(p.get("wrap", False)) if wrap is None else wrap
     if dc == "1":
         g = PeriodicGrid(np.ascontiguousarray(pts[:, 0]), w, A.reshape(nl), wrap=wrap)
@@ -539,7 +543,7 @@ def run_nolattice(ctx, params):
     dim = int(dc[0])
     n = c10mod._rand_n(rng)
     pts = c10mod._shape_points(c10mod._rand_points(rng, n, dim), dc)
-    w = rng.uniform(-1, 2, n)
+    w = c10mod.rand_weights(ctx, rng, n)
     mode = int(rng.integers(4))
     subj = f"PeriodicGrid/{_dimcode(pts)}/nl0"
     try:
@@ -661,5 +665,41 @@ def run_witness(ctx, name):
         _call(ctx, lambda: g.get_localgrid(np.array([0.6, 0.6]), 0.7))
         g.points = q + np.array([3, -2]) @ A + 0.05
         _call(ctx, lambda: g.get_localgrid(np.array([0.6, 0.6]), 0.7))
+    elif name == "zero-weights":
+        # membership must depend on geometry only: exact zeros of both signs, negative, denormal, integer weights
+        n = 18
+        f = rng.random((n, 2))
+        A = np.array([[1.0, 0.0], [0.4, 1.1]])
+        i = np.arange(n)
+        wz = {
+            "zeros": np.where(i % 3 == 0, 0.0, np.where(i % 3 == 1, -0.0, 1.5)),
+            "all-zero": np.zeros(n),
+            "negative": -np.linspace(0.5, 1.5, n),
+            "tiny": np.where(i % 2 == 0, 5e-324, 1e-300),
+            "int": (i % 3).astype(np.int64),
+        }
+        for wname, w in wz.items():
+            grids = [
+                PeriodicGrid(f @ A, w.copy(), A.copy()),
+                PeriodicGrid((f + np.array([4, -3])) @ A, w.copy(), A.copy(), wrap=True),
+                PeriodicGrid(f @ A, w.copy(), A[:1].copy()),
+                PeriodicGrid(f[:, 0].copy(), w.copy(), np.array([1.0])),
+                PeriodicGrid(f[:, 0].copy(), w.copy(), np.array([-0.7])),
+            ]
+            for g in grids:
+                flat = np.asarray(g.points).ndim == 1
+                for c in (np.array([0.5, 0.5]), np.array([-6.3, 8.2])):
+                    for r in (0.25, 1.0, 2.6):
+                        cc = float(c[0]) if flat else c
+                        _call(ctx, lambda: g.get_localgrid(cc, r))
+            # without lattice vectors: must equal the plain grid
+            for pts in (f.copy(), f[:, 0].copy()):
+                pg, plain = PeriodicGrid(pts, w.copy()), Grid(pts.copy(), w.copy())
+                for r in (0.2, 0.6, 3.0):
+                    cc = np.array([0.5, 0.5]) if pts.ndim == 2 else 0.5
+                    a = _call(ctx, lambda: pg.get_localgrid(cc, r))
+                    b = plain.get_localgrid(cc, r)
+                    if a is not None:
+                        ctx.check("no-lattice-equals-plain-grid", _subject(pg), sorted(a.indices.tolist()) == sorted(b.indices.tolist()), sig="differs-from-Grid", detail={"weights": wname, "n_periodic": int(a.size), "n_plain": int(b.size)})
     else:
         raise core.MonitorError("unknown witness " + name)
